@@ -382,3 +382,14 @@ package calc
 //@   requires !c02Struck
 //@   ghost at call Discard: c02Struck = c02Struck || (arg0 == old((*buf).sentRoutes) && arg1 == id)
 //@   ensures c02Struck
+
+//@ -- C05, profiles: a profile whose rules arrive as "no value" - deleted, or failed validation and nilled by the
+//@ -- validation filter, whatever the update type says - is forgotten, so that endpoints naming it get the
+//@ -- deny-all stand-in and never the rules of an earlier, valid version
+//@ ghost c05Forgot bool
+//@ func (*ActiveRulesCalculator).OnUpdate
+//@   property C05
+//@   option safety off
+//@   requires arc != nil && !c05Forgot
+//@   ghost at call ).Delete#2: c05Forgot = c05Forgot || (istype(update.KVPair.Key, model.ProfileRulesKey) && arg1 == cast(update.KVPair.Key, model.ProfileRulesKey).ProfileKey.Name)
+//@   ensures istype(update.KVPair.Key, model.ProfileRulesKey) && update.KVPair.Value == nil ==> c05Forgot
